@@ -188,6 +188,10 @@ func (f *ruleFactory) createExecutePipeline(
 					"an authenticator is defined after some other non authenticator type")
 			}
 
+			if err := checkMechanismReference(id, pipelineStep["config"]); err != nil {
+				return nil, nil, nil, err
+			}
+
 			authenticator, err := f.hf.CreateAuthenticator(version, id.(string), getConfig(pipelineStep["config"]))
 			if err != nil {
 				return nil, nil, nil, err
@@ -244,6 +248,10 @@ func (f *ruleFactory) createOnErrorPipeline(
 	for _, ehStep := range ehConfigs {
 		id, found := ehStep["error_handler"]
 		if found {
+			if err := checkMechanismReference(id, ehStep["config"]); err != nil {
+				return nil, err
+			}
+
 			conf := getConfig(ehStep["config"])
 
 			condition, err := getExecutionCondition(ehStep["if"])
@@ -339,12 +347,34 @@ func createHandler[T subjectHandler](
 		return nil, err
 	}
 
+	if err = checkMechanismReference(id, configMap["config"]); err != nil {
+		return nil, err
+	}
+
 	handler, err := creteHandler(version, id.(string), getConfig(configMap["config"]))
 	if err != nil {
 		return nil, err
 	}
 
 	return &conditionalSubjectHandler{h: handler, c: condition}, nil
+}
+
+// checkMechanismReference makes sure the type assertions done on a pipeline
+// step (the mechanism id is a string, its config, if present, a map) hold.
+func checkMechanismReference(id any, conf any) error {
+	if _, ok := id.(string); !ok {
+		return errorchain.NewWithMessagef(heimdall.ErrConfiguration,
+			"unexpected type '%T' for a mechanism reference", id)
+	}
+
+	if conf != nil {
+		if _, ok := conf.(map[string]any); !ok {
+			return errorchain.NewWithMessagef(heimdall.ErrConfiguration,
+				"unexpected type '%T' for a mechanism config", conf)
+		}
+	}
+
+	return nil
 }
 
 func getConfig(conf any) config.MechanismConfig {
